@@ -158,6 +158,8 @@ def label_keys(kind, ref, full=True):
                 keys.append(('index-key', sf.IndexDate(sub)))
             else:
                 keys.append(('index-key', sf.Index(sub)))
+                if len(sub) == 2:
+                    keys.append(('index-go-key-just-grown', FreshGO(sub)))
     for kname, k in pos_keys(n, full=False)[:: (1 if full else 3)]:
         keys.append(('ILoc-' + kname, sf.ILoc[k]))
     if kind.startswith('date'):
@@ -260,6 +262,9 @@ def run_series(case, ctx):
         ctx.transition()
         ctx.state(('S', kind, n, route, kname, key_repr(key)))
         info = dict(index_kind=kind, n=n, route=route, key=key_repr(key), key_kind=kname)
+        fresh = key if isinstance(key, FreshGO) else None
+        if fresh is not None:
+            key = fresh.static()
         try:
             sel = check_unique(ref.iloc(key) if route == 'iloc' else ref.loc(key), ref.labels if kind == 'ih' else None)
             exp_err = None
@@ -267,6 +272,8 @@ def run_series(case, ctx):
             sel, exp_err = None, 'lookup'
         except RefDuplicate:
             sel, exp_err = None, 'duplicate'
+        if fresh is not None:
+            key = fresh.make()
         try:
             got = s.iloc[key] if route == 'iloc' else (s.loc[key] if route == 'loc' else s[key])
             got_err = None
@@ -298,6 +305,25 @@ def run_series(case, ctx):
         elif got.name != 'nm':
             ctx.violation(f'series.{route}|name-lost', **info, got=got.name)
     ctx.sample({'family': 'series', 'index_kind': kind, 'n': n, 'route': route, 'keys': len(keys)}, limit=1)
+
+
+class FreshGO:
+    '''a grow-only Index used as a key straight after it grew (no read in between): built anew for every selection; the reference sees the static equal'''
+
+    def __init__(self, labels):
+        self.labels = list(labels)
+
+    def make(self):
+        k = sf.IndexGO(self.labels[:1])
+        for x in self.labels[1:]:
+            k.append(x)
+        return k
+
+    def static(self):
+        return sf.Index(self.labels)
+
+    def __repr__(self):
+        return f'IndexGO(grown){self.labels!r}'
 
 
 # ------------------------------------------------------------------ frames
@@ -421,6 +447,14 @@ def check_frame_sel(ctx, tag, got, got_err, rsel, csel, rref, cref, grid, info):
         ctx.violation(f'{tag}|frame-name-lost', **info, got=got.name)
 
 
+def _real(k):
+    return k.make() if isinstance(k, FreshGO) else k
+
+
+def _stat(k):
+    return k.static() if isinstance(k, FreshGO) else k
+
+
 def resolve(ref, key, positional):
     try:
         tree = ref.labels if (ref.labels and isinstance(ref.labels[0], tuple) and ref.kind != 'obj') else None
@@ -444,10 +478,10 @@ def run_frame1(case, ctx):
     for kname, k in label_keys(rk, rref):
         if isinstance(k, tuple):
             continue  # Frame.loc[(a, b)] is read as (row key, column key); a bare tuple label is only usable inside a list / HLoc
-        plans.append(('loc[r]', kname, k, lambda k=k: f.loc[k], lambda k=k: (resolve(rref, k, False), (allc, None))))
+        plans.append(('loc[r]', kname, k, lambda k=k: f.loc[_real(k)], lambda k=k: (resolve(rref, _stat(k), False), (allc, None))))
     for kname, k in label_keys(ck, cref):
-        plans.append(('loc[:,c]', kname, k, lambda k=k: f.loc[:, k], lambda k=k: ((allr, None), resolve(cref, k, False))))
-        plans.append(('getitem[c]', kname, k, lambda k=k: f[k], lambda k=k: ((allr, None), resolve(cref, k, False))))
+        plans.append(('loc[:,c]', kname, k, lambda k=k: f.loc[:, _real(k)], lambda k=k: ((allr, None), resolve(cref, _stat(k), False))))
+        plans.append(('getitem[c]', kname, k, lambda k=k: f[_real(k)], lambda k=k: ((allr, None), resolve(cref, _stat(k), False))))
     for route, kname, key, call, refcall in plans:
         ctx.transition()
         ctx.state(('F1', rk, ck, nr, nc, sig, route, key_repr(key)))
